@@ -5,7 +5,7 @@
 
 static const char* OPN[] = {"new_int", "new_float", "new_ctrl", "new_bstr", "new_tstr", "new_indef_bstr", "new_indef_tstr", "new_def_array", "new_indef_array", "new_def_map", "new_indef_map", "new_tag", "build_tag",
                             "push", "push_many", "set", "replace", "get", "map_add", "add_chunk", "tag_set", "tag_item", "copy", "load", "load_raw", "serialize_alloc", "serialize", "size", "describe",
-                            "incref", "decref", "intermediate_decref", "setval", "mark", "getters"};
+                            "incref", "decref", "intermediate_decref", "setval", "mark", "getters", "reset_handle"};
 const char* op_name(int c) { return (c >= 0 && c < OP__COUNT) ? OPN[c] : "?"; }
 HOp hop_from_json(const J& j) { HOp o; o.code = (int)j.iu(0); o.a = j.iu(1); o.b = j.iu(2); o.c = j.iu(3); o.d = j.iu(4); o.fk = (int)j.iu(5); o.fkk = j.iu(6); return o; }
 J hop_to_json(const HOp& o) { J a = J::arr(); a.push((uint64_t)o.code); a.push(o.a); a.push(o.b); a.push(o.c); a.push(o.d); a.push((uint64_t)o.fk); a.push(o.fkk); return a; }
@@ -249,7 +249,12 @@ static void payload_for(uint64_t seed, uint64_t len, int flavour, std::vector<ui
 
 static MV raw_shape(const HOp& op) {
   Rng r(op.c, "raw");
-  if (op.d & 8) { unsigned lim = impl_max_stack() > 1 ? impl_max_stack() - 1 : 1; unsigned depth = (unsigned)(20 + (op.c >> 8) % 230); if (depth > lim) depth = lim; return deep_mv(r, depth); }
+  if (op.d & 8) {
+    unsigned lim = impl_max_stack() > 1 ? impl_max_stack() - 1 : 1; unsigned depth = (unsigned)(20 + (op.c >> 8) % 230);
+    if ((op.c >> 20) % 24 == 0 && lim <= 4096) depth = lim - (unsigned)((op.c >> 26) % 3 < lim ? (op.c >> 26) % 3 : 0);   // now and then right up to the decoder's limit
+    if (depth > lim) depth = lim;
+    return deep_mv(r, depth);
+  }
   GenProfile gp; gp.max_depth = 3; gp.max_kids = 4; return gen_mv(r, gp);
 }
 
@@ -575,6 +580,15 @@ OpResult Hist::run_op(const HOp& op0) {
         if (S.w.requests) fail("C13", "size-computation-allocates", S.ctx + ": cbor_serialized_size made allocator requests");
       } else if (op.code == OP_SERIALIZE) {
         size_t cap = exp.size() + (op.d % 3 == 1 ? 7 : 0);
+        if (op.d % 3 == 2 && !exp.empty()) {
+          // a client probing with a buffer that is too small (it will retry with a bigger one): must return 0 and have no lasting effect
+          size_t small = exp.size() - 1 - (size_t)(op.b % std::min<size_t>(exp.size(), 8));
+          unsigned char* sb = (unsigned char*)malloc(small ? small : 1);
+          S.begin(op); size_t w0 = cbor_serialize(nodes[x].impl, sb, small); S.end(); R.executed = true;
+          if (w0 != 0) fail("C07", "serialize-into-short-buffer-nonzero", S.ctx + fmt(": returned %zu for a %zu-byte buffer, item needs %zu", w0, small, exp.size()));
+          free(sb); stat_add("serialize_short_buffer_probes");
+          break;
+        }
         unsigned char* buf = (unsigned char*)malloc(cap); memset(buf, 0xEE, cap);
         S.begin(op); size_t wr = cbor_serialize(nodes[x].impl, buf, cap); S.end(); R.executed = true;
         if (wr != exp.size() || memcmp(buf, exp.data(), exp.size()) != 0) fail("C03", "serialization-differs-from-rfc8949", S.ctx + fmt(": wrote %zu bytes [%s], reference %zu bytes [%s] for %s", wr, to_hex(buf, std::min<size_t>(wr, 24)).c_str(), exp.size(), to_hex(exp.data(), std::min<size_t>(exp.size(), 24)).c_str(), mv_str(to_value(x), 80).c_str()));
@@ -653,6 +667,20 @@ OpResult Hist::run_op(const HOp& op0) {
       OpScope S(*this, op, "C03"); S.begin(op); if (op.b & 1) { cbor_mark_negint(nodes[x].impl); nodes[x].kind = MK_NEGINT; } else { cbor_mark_uint(nodes[x].impl); nodes[x].kind = MK_UINT; } S.end(); R.executed = true; S.account();
       break;
     }
+    case OP_RESET_HANDLE: {
+      // the client edits a string in place through its handle and hands the same block back with the new length
+      std::vector<int> c; for (size_t i = 0; i < pool.size(); i++) { const HNode& n = nodes[pool[i]]; if ((n.kind == MK_BSTR || n.kind == MK_TSTR) && n.definite && n.impl && n.impl->data) c.push_back((int)i); }
+      if (c.empty()) break; int x = pool[c[op.a % c.size()]]; HNode& n = nodes[x];
+      size_t nl = (size_t)(op.c % (n.bytes.size() + 1));
+      OpScope S(*this, op, "C04,C13"); S.begin(op);
+      unsigned char* h = n.impl->data;
+      if (nl) h[nl - 1] = (unsigned char)(0x41 + op.b % 26);
+      if (n.kind == MK_BSTR) cbor_bytestring_set_handle(n.impl, h, nl); else cbor_string_set_handle(n.impl, h, nl);
+      S.end(); R.executed = true;
+      n.bytes.resize(nl); if (nl) n.bytes[nl - 1] = (uint8_t)(0x41 + op.b % 26);
+      S.account();
+      break;
+    }
     case OP_GETTERS: {
       int xi = pick(M_ANY, op.a); if (xi < 0) break; int x = pool[xi]; const HNode& n = nodes[x]; const cbor_item_t* it = n.impl;
       OpScope S(*this, op, "C03,C12"); S.begin(op);
@@ -669,6 +697,8 @@ OpResult Hist::run_op(const HOp& op0) {
   }
   if (R.executed) {
     g_log.ev("result", (uint64_t)op.code, (uint64_t)R.reported_failure * 2 + (uint64_t)R.refused, R.requests);
+    { static std::string names[OP__COUNT][3]; if (names[0][0].empty()) for (int c = 0; c < OP__COUNT; c++) { names[c][0] = std::string("api_") + op_name(c); names[c][1] = names[c][0] + "_refused_alloc"; names[c][2] = names[c][0] + "_reported_failure"; }
+      stat_add(names[op.code][0].c_str()); if (R.refused) stat_add(names[op.code][1].c_str()); if (R.reported_failure) stat_add(names[op.code][2].c_str()); }
     stat_add("ops_executed");
     std::string ctx = fmt("after %s", op_name(op.code));
     const char* props = R.refused ? "C04,C06" : (op.code == OP_COPY ? "C04,C11" : "C04");
